@@ -101,4 +101,138 @@ theorem matchingOf_length (ref est : List Rat) (w : Rat) :
   rw [(HK.sortPairs_perm _).length_eq, HK.hkMatch_buildGraph_length]
   exact matchEventsSize_eq_hitCount ref est w
 
+/-! ### the hit metrics: `onset.f_measure`, `beat.f_measure`, `segment.detection` -/
+
+theorem divF_ok {a b : Rat} (h : b ≠ 0) : PyS.divF a b = .ok (a / b) := by
+  unfold PyS.divF; rw [if_neg h]
+
+/-- `util.f_measure` (as regenerated by part `scalars`) never raises on the precision / recall of a hit count -/
+theorem f_measure_hits (k nR nE : Nat) (hR : nR ≠ 0) (hE : nE ≠ 0) (b : Rat) :
+    Mir.Gen.util.f_measure ((k : Rat) / (nE : Rat)) ((k : Rat) / (nR : Rat)) b =
+      .ok (fMeasure ((k : Rat) / (nE : Rat)) ((k : Rat) / (nR : Rat)) b) := by
+  rw [Mir.C06.Gen.f_measure_eq_model]; unfold Mir.C06.Gen.fMeasurePy
+  rw [if_neg]
+  rintro ⟨h1, h2⟩
+  have hRq : (0 : Rat) < nR := by exact_mod_cast Nat.pos_of_ne_zero hR
+  have hEq : (0 : Rat) < nE := by exact_mod_cast Nat.pos_of_ne_zero hE
+  by_cases hk : k = 0
+  · subst hk; apply h1; simp
+  · have hkq : (0 : Rat) < k := by exact_mod_cast Nat.pos_of_ne_zero hk
+    have hp : 0 < (k : Rat) / nE := div_pos hkq hEq
+    have hr : 0 < (k : Rat) / nR := div_pos hkq hRq
+    have : 0 ≤ b * b * ((k : Rat) / nE) := mul_nonneg (mul_self_nonneg b) hp.le
+    linarith
+
+/-- the hand model's (P, R, F) of two non-empty event lists, through the matching the translated code computes -/
+theorem hitPRF_nonempty (ref est : List Rat) (w b : Rat) (hr : ref ≠ []) (he : est ≠ []) :
+    hitPRF (withinWindow w) ref est b =
+      (((matchingOf ref est w).length : Rat) / (est.length : Rat), ((matchingOf ref est w).length : Rat) / (ref.length : Rat),
+        fMeasure (((matchingOf ref est w).length : Rat) / (est.length : Rat))
+          (((matchingOf ref est w).length : Rat) / (ref.length : Rat)) b) := by
+  unfold hitPRF prf
+  have : (ref.isEmpty || est.isEmpty) = false := by
+    cases ref <;> cases est <;> simp_all
+  rw [this, matchingOf_length]
+  rfl
+
+theorem hitPRF_empty (ref est : List Rat) (w b : Rat) (h : ref = [] ∨ est = []) :
+    hitPRF (withinWindow w) ref est b = (0, 0, 0) := by
+  unfold hitPRF
+  rcases h with h | h <;> subst h <;> simp
+
+theorem len_ne_zero {l : List Rat} (h : l ≠ []) : ((l.length : Nat) : Rat) ≠ 0 := by
+  exact_mod_cast (List.length_pos_iff.2 h).ne'
+
+theorem length_ne_zero {l : List Rat} (h : l ≠ []) : l.length ≠ 0 := (List.length_pos_iff.2 h).ne'
+
+/-- **`onset.f_measure` as translated = the hand model** (`Onset.fMeasure`), for ALL onset lists and windows:
+    validation, the empty-input early return `(0, 0, 0)`, the matching size over the number of estimated / reference
+    onsets (Python float division: no ZeroDivisionError path), `util.f_measure` at beta = 1; returned as (F, P, R) -/
+theorem onset_f_measure_eq_model (r e : List Rat) (w : Rat) :
+    Mir.Gen.onset.f_measure r e w = Onset.fMeasure r e w := by
+  unfold Mir.Gen.onset.f_measure Onset.fMeasure PyEG.onset_validate
+  cases hv : Onset.validate r e with
+  | error x => rfl
+  | ok u =>
+    simp only [ok_bind, PyM.len, decide_eq_true_eq, Bool.or_eq_true, List.length_eq_zero_iff]
+    by_cases hE : r = [] ∨ e = []
+    · rw [if_pos hE, hitPRF_empty r e w 1 hE]
+    · rw [if_neg hE]
+      have hr : r ≠ [] := fun h => hE (Or.inl h)
+      have he : e ≠ [] := fun h => hE (Or.inr h)
+      simp only [match_events_eq_model, ok_bind, divF_ok (len_ne_zero hr), divF_ok (len_ne_zero he),
+        f_measure_hits _ _ _ (length_ne_zero hr) (length_ne_zero he), hitPRF_nonempty r e w 1 hr he]
+      try rfl
+
+theorem onset_f_measure_default (r e : List Rat) :
+    Mir.Gen.onset.f_measure r e = Onset.fMeasure r e (1 / 20) := onset_f_measure_eq_model r e _
+
+/-- **`beat.f_measure` as translated = the hand model** (`Beat.fMeasure`), for ALL beat lists and thresholds -/
+theorem beat_f_measure_eq_model (r e : List Rat) (w : Rat) :
+    Mir.Gen.beat.f_measure r e w = Beat.fMeasure r e w := by
+  unfold Mir.Gen.beat.f_measure Beat.fMeasure Beat.fMeasureCore PyEG.beat_validate
+  cases hv : Beat.validate r e with
+  | error x => rfl
+  | ok u =>
+    simp only [ok_bind, PyM.len, decide_eq_true_eq, Bool.or_eq_true, List.length_eq_zero_iff]
+    by_cases hE : e = [] ∨ r = []
+    · rw [if_pos hE, hitPRF_empty r e w 1 hE.symm]
+    · rw [if_neg hE]
+      have hr : r ≠ [] := fun h => hE (Or.inr h)
+      have he : e ≠ [] := fun h => hE (Or.inl h)
+      simp only [match_events_eq_model, ok_bind, divF_ok (len_ne_zero hr), divF_ok (len_ne_zero he),
+        f_measure_hits _ _ _ (length_ne_zero hr) (length_ne_zero he), hitPRF_nonempty r e w 1 hr he]
+      rfl
+
+theorem beat_f_measure_default (r e : List Rat) :
+    Mir.Gen.beat.f_measure r e = Beat.fMeasure r e (7 / 100) := beat_f_measure_eq_model r e _
+
+/-- `b[1:-1]` -/
+theorem sliceLit_one_minus_one (xs : List Rat) : PyEG.sliceLit xs 1 (-1) = (xs.drop 1).dropLast := by
+  cases xs with
+  | nil => rfl
+  | cons x xs =>
+    simp only [PyEG.sliceLit, PyEG.clip, List.length_cons, List.dropLast_eq_take, List.drop_take, List.length_drop]
+    have h1 : ((1 : Int) < 0) = False := by simp
+    have h2 : ((-1 : Int) < 0) = True := by simp
+    simp only [h1, h2, if_false, if_true]
+    have e1 : ((-1 : Int) + ((xs.length + 1 : Nat) : Int)).toNat = xs.length := by omega
+    have e2 : min (1 : Int).toNat (xs.length + 1) = 1 := by simp
+    rw [e1, e2]
+    simp
+
+theorem trim_eq (trim : Bool) (rb eb : List Rat) :
+    (if trim = true then (do
+        let a : List Rat := PyEG.sliceLit rb 1 (-1)
+        let b : List Rat := PyEG.sliceLit eb 1 (-1)
+        pure (a, b) : Py (List Rat × List Rat))
+      else pure (rb, eb)) = .ok (Boundary.trimB trim rb, Boundary.trimB trim eb) := by
+  cases trim
+  · rfl
+  · simp only [if_true, sliceLit_one_minus_one, Boundary.trimB]; rfl
+
+/-- **`segment.detection` as translated = the hand model** (`Boundary.detection`), for ALL interval lists, windows,
+    betas and both values of `trim`; returned as (P, R, F) -/
+theorem detection_eq_model (ri ei : List (Rat × Rat)) (w b : Rat) (t : Bool) :
+    Mir.Gen.segment.detection ri ei w b t = Boundary.detection ri ei w b t := by
+  unfold Mir.Gen.segment.detection Boundary.detection PyEG.validate_boundary Boundary.boundaries
+    PyEG.intervals_to_boundaries
+  cases hv : Boundary.validateBoundary ri ei t with
+  | error x => rfl
+  | ok u =>
+    simp only [ok_bind, trim_eq, PyM.len, decide_eq_true_eq, Bool.or_eq_true, List.length_eq_zero_iff]
+    generalize Boundary.trimB t (Boundary.intervalsToBoundaries ri) = r
+    generalize Boundary.trimB t (Boundary.intervalsToBoundaries ei) = e
+    by_cases hE : r = [] ∨ e = []
+    · rw [if_pos hE, hitPRF_empty r e w b hE]
+    · rw [if_neg hE]
+      have hr : r ≠ [] := fun h => hE (Or.inl h)
+      have he : e ≠ [] := fun h => hE (Or.inr h)
+      simp only [match_events_eq_model, ok_bind, divF_ok (len_ne_zero hr), divF_ok (len_ne_zero he),
+        f_measure_hits _ _ _ (length_ne_zero hr) (length_ne_zero he), hitPRF_nonempty r e w b hr he]
+      try rfl
+
+theorem detection_defaults (ri ei : List (Rat × Rat)) :
+    Mir.Gen.segment.detection ri ei = Boundary.detection ri ei (1 / 2) 1 false := detection_eq_model ri ei _ _ _
+
 end Mir.C04.GenGlue
